@@ -46,6 +46,7 @@ type Finding struct {
 	Count    int
 	Sched    []string
 	Events   []string
+	Threads  int // goroutines alive when the finding was made (>1: the counterexample includes a schedule)
 }
 
 type NondetVal struct {
@@ -539,6 +540,7 @@ func (in *Interp) finding(kind, id, msg string, m Model) {
 		f.Nondet = in.nondetValues(m)
 		f.Observe = in.observeValues(m)
 	}
+	f.Threads = len(in.threads)
 	f.Sched = append([]string{}, in.schedLog...)
 	f.Events = append([]string{}, in.events...)
 	in.ex.addFinding(f)
